@@ -351,14 +351,31 @@ UNIT = {'MOVE_FORWARD': (-1, 0), 'MOVE_RIGHT': (0, 1), 'MOVE_BACKWARD': (1, 0), 
 
 
 def strat_next(tier):
-    return st.fixed_dictionaries({'p': pos_s})
+    edge = st.sampled_from([2**63 - 1, 2**63, 2**63 - 2, -2**63, -2**63 + 1, 2**64, 2**31, -2**31 - 1])
+    return st.fixed_dictionaries({'p': pos_s | st.tuples(st.integers(-9, 9), st.integers(-9, 9)).map(list), 'numpy_first': st.booleans(),
+                                  'far': st.tuples(edge | BIG, edge | BIG).map(list)})
 
 
 def oracle_next(case, ctx):
+    import numpy as np
     p = tuple(case['p'])
+    far = case.get('far', [0, 0])
     for h in HEADINGS:
         for a in ACTIONS:
+            if case.get('numpy_first') and all(abs(c) < 2**62 for c in p):
+                # the library itself often holds positions made of numpy integers (reset functions sample them with a Generator); the
+                # same question asked with such a position first, then with plain ints
+                get_next_position(Position(np.int64(p[0]), np.int64(p[1])), objs.ori(h), objs.action(a))
             got = get_next_position(P(p), objs.ori(h), objs.action(a))
+            # the result takes part in the pose algebra over unbounded integers like any other position
+            moved = T([far[0], far[1], 'F']) * got
+            exp_moved = (far[0] + (m_tf_apply([p[0], p[1], h], UNIT[a])[0] if a in UNIT else p[0]), far[1] + (m_tf_apply([p[0], p[1], h], UNIT[a])[1] if a in UNIT else p[1]))
+            try:
+                ok = yx(moved) == exp_moved
+            except OverflowError:
+                ok = False
+            if not ok:
+                ctx.fail(f'translating get_next_position({p},{h},{a}) by {tuple(far)} gives {moved}, exact integer arithmetic gives {exp_moved}', {'kind': 'next_position', 'aspect': 'unbounded'})
             if a in UNIT:
                 exp_alg = T([p[0], p[1], h]) * P(UNIT[a])
                 exp = m_tf_apply([p[0], p[1], h], UNIT[a])
@@ -367,7 +384,7 @@ def oracle_next(case, ctx):
                 exp = p
             if got != exp_alg or yx(got) != exp:
                 ctx.fail(f'get_next_position({p},{h},{a}) = {yx(got)} != pose algebra {yx(exp_alg)} / model {exp}', {'kind': 'next_position'})
-    ctx.ev.case(case, nt=(p != (0, 0)), classes=['pos'])
+    ctx.ev.case(case, nt=(p != (0, 0)), classes=['pos'] + (['numpy_ints_first'] if case.get('numpy_first') else []) + (['translation>=2**62'] if max(abs(c) for c in far) >= 2**62 else []))
 
 
 CHECKS = [
@@ -382,5 +399,6 @@ CHECKS = [
     Check('grid_rotation', oracle_grid, strategy=strat_grid, examples={'quick': 400, 'thorough': 1500},
           rule='grid shapes 1..6 (9 thorough) with pairwise distinguishable cells x 4 rotations: multiset, shape, documented rearrangement, inverse', required=['nonsquare', 'distinct']),
     Check('next_position', oracle_next, strategy=strat_next, examples={'quick': 300, 'thorough': 1000},
-          rule='unbounded positions x all 4 headings x all 8 actions against pose algebra and model'),
+          rule='unbounded positions x all 4 headings x all 8 actions against pose algebra and model; the same question asked with numpy-integer coordinates first; the result translated by offsets around 2**63 with exact integer arithmetic',
+          required=['numpy_ints_first', 'translation>=2**62']),
 ]
